@@ -9,6 +9,7 @@ import (
 	"io"
 	"os"
 	"path/filepath"
+	"runtime"
 	"sort"
 	"strconv"
 	"strings"
@@ -122,6 +123,8 @@ func bmList(bm *roaring.Bitmap) string {
 }
 
 func (e *Exec) path(name string) string {
+	e.mu.Lock()
+	defer e.mu.Unlock()
 	if p, ok := e.files[name]; ok {
 		return p
 	}
@@ -160,6 +163,12 @@ func (e *Exec) run(cmds []*Cmd, out *bufio.Writer) {
 			}
 			e.batches[b.Name] = b
 			i = next
+			continue
+		case "persistfaults", "writetofaults", "mergefaults", "mergecancel", "parbuild":
+			fmt.Fprintln(out, "note expanded: "+c.Raw)
+			e.expand(c, out)
+			out.Flush()
+			i++
 			continue
 		case "par":
 			j := i + 1
@@ -290,12 +299,13 @@ func (e *Exec) exec(c *Cmd, sl *slots, gsuffix string) (string, bool) {
 	case "footer":
 		return e.doFooter(c), true
 	case "open":
-		sg, err := (&zap.ZapPlugin{}).Open(e.path(c.Pos[1]))
+		fp := e.path(c.Pos[1])
+		sg, err := (&zap.ZapPlugin{}).Open(fp)
 		if err != nil {
 			return errKind(err), true
 		}
 		e.mu.Lock()
-		e.segs[c.Pos[0]] = &segEntry{seg: sg, path: e.path(c.Pos[1])}
+		e.segs[c.Pos[0]] = &segEntry{seg: sg, path: fp}
 		e.mu.Unlock()
 		return "ok", true
 	case "close":
@@ -942,11 +952,26 @@ func (e *Exec) qStored(c *Cmd, sg segment.Segment) string {
 	}
 	var parts []string
 	calls := 0
+	hold := c.str("hold", "0") == "1"
+	corrupt := false
 	err := sg.VisitStoredFields(n, func(field string, typ byte, value []byte, pos []uint64) bool {
 		calls++
 		parts = append(parts, fmt.Sprintf("%s:%d:%s:%s", field, typ, hx(value), u64List(pos, ".")))
+		if hold {
+			snapV := append([]byte(nil), value...)
+			snapP := append([]uint64(nil), pos...)
+			for k := 0; k < 20; k++ {
+				runtime.Gosched()
+			}
+			if !bytes.Equal(snapV, value) || fmt.Sprint(snapP) != fmt.Sprint(pos) {
+				corrupt = true
+			}
+		}
 		return stop < 0 || calls < stop
 	})
+	if corrupt {
+		return "corrupt-during-callback:" + strings.Join(parts, ";")
+	}
 	if err != nil {
 		return errKind(err)
 	}
@@ -1089,3 +1114,156 @@ func (e *Exec) qThes(c *Cmd, sg segment.Segment, sl *slots) string {
 }
 
 var _ = io.EOF
+
+// expand turns a fault / cancellation / concurrency macro into plain commands
+// (each printed with its observation), so that the transcript the Lean driver
+// reads contains only primitive commands.
+func (e *Exec) expand(c *Cmd, out *bufio.Writer) {
+	emit := func(line string) {
+		cc := parseLine(c.LineNo, line)
+		fmt.Fprintln(out, cc.Raw)
+		if obs, ok := e.safeExec(cc, e.sl, ""); ok {
+			fmt.Fprintln(out, "r "+obs)
+		}
+	}
+	switch c.Op {
+	case "persistfaults":
+		// persistfaults <seg> <file> [max=<n>]
+		seg, file := c.Pos[0], c.Pos[1]
+		sg, err := e.seg(seg)
+		if err != nil {
+			fmt.Fprintln(out, "r scripterror:noseg")
+			return
+		}
+		p := e.path(file)
+		os.Remove(p)
+		if err := sg.(segment.UnpersistedSegment).Persist(p); err != nil {
+			emit(fmt.Sprintf("persist %s %s", seg, file))
+			return
+		}
+		st, _ := os.Stat(p)
+		full := int(st.Size())
+		os.Remove(p)
+		limits := map[int]bool{0: true, 1: true, full - 1: true, full: true, full + 1: true}
+		for b := 4096; b < full+4096; b += 4096 { // bufio default buffer: flush boundaries
+			limits[b-1] = true
+			limits[b] = true
+			limits[b+1] = true
+		}
+		for _, l := range sortedInts(limits) {
+			if l < 0 {
+				continue
+			}
+			emit(fmt.Sprintf("persist %s %s fsize=%d full=%d", seg, file, l, full))
+		}
+		emit(fmt.Sprintf("persist %s %s", seg, file))
+	case "writetofaults":
+		seg := c.Pos[0]
+		sg, err := e.seg(seg)
+		if err != nil {
+			fmt.Fprintln(out, "r scripterror:noseg")
+			return
+		}
+		fw := &failWriter{limit: -1}
+		if _, err := sg.(*zap.SegmentBase).WriteTo(fw); err != nil {
+			emit(fmt.Sprintf("writeto %s wtmp", seg))
+			return
+		}
+		full := fw.buf.Len()
+		step := c.num("step", 1)
+		limits := map[int]bool{full - 1: true, full: true, full + 1: true}
+		for l := 0; l <= full; l += step {
+			limits[l] = true
+		}
+		for b := 4096; b < full+4096; b += 4096 {
+			limits[b-1], limits[b], limits[b+1] = true, true, true
+		}
+		for _, l := range sortedInts(limits) {
+			if l < 0 {
+				continue
+			}
+			emit(fmt.Sprintf("writeto %s wtmp fail=%d full=%d", seg, l, full))
+		}
+	case "mergefaults", "mergecancel":
+		file := c.Pos[0]
+		base := fmt.Sprintf("merge %s segs=%s drops=%s", file, c.str("segs", "-"), c.str("drops", ""))
+		// fault-free run to learn the size / number of reports
+		cc := parseLine(c.LineNo, base)
+		obs, _ := e.safeExec(cc, e.sl, "")
+		if !strings.HasPrefix(obs, "ok") {
+			fmt.Fprintln(out, cc.Raw)
+			fmt.Fprintln(out, "r "+obs)
+			return
+		}
+		st, _ := os.Stat(e.path(file))
+		full := int(st.Size())
+		reports := 0
+		for _, t := range strings.Fields(obs) {
+			if strings.HasPrefix(t, "reports=") {
+				fmt.Sscanf(t, "reports=%d", &reports)
+			}
+		}
+		if c.Op == "mergefaults" {
+			bufsz := zap.DefaultFileMergerBufferSize
+			limits := map[int]bool{0: true, full - 1: true, full: true, full + 1: true}
+			maxPoints := c.num("max", 400)
+			stepB := bufsz
+			for (full/stepB)*3 > maxPoints {
+				stepB += bufsz
+			}
+			for b := stepB; b < full+bufsz; b += stepB {
+				limits[b-1], limits[b], limits[b+1] = true, true, true
+			}
+			for _, l := range sortedInts(limits) {
+				if l < 0 {
+					continue
+				}
+				emit(fmt.Sprintf("%s fsize=%d full=%d", base, l, full))
+			}
+		} else {
+			emit(base + " close=before")
+			step := 1
+			for reports/step > c.num("max", 400) {
+				step++
+			}
+			for k := 1; k <= reports; k += step {
+				emit(fmt.Sprintf("%s close=report:%d", base, k))
+			}
+			emit(fmt.Sprintf("%s close=report:%d", base, reports))
+			emit(fmt.Sprintf("%s close=report:%d", base, reports+5))
+		}
+		emit(base)
+	case "parbuild":
+		// parbuild segs=s1,s2 batches=b1,b2 rounds=R : build concurrently, keep last round
+		segs := parseStrList(c.str("segs", "-"))
+		bs := parseStrList(c.str("batches", "-"))
+		rounds := c.num("rounds", 1)
+		res := make([]string, len(segs))
+		for r := 0; r < rounds; r++ {
+			var wg sync.WaitGroup
+			for i := range segs {
+				wg.Add(1)
+				go func(i int) {
+					defer wg.Done()
+					cc := parseLine(c.LineNo, fmt.Sprintf("build %s %s", segs[i], bs[i]))
+					obs, _ := e.safeExec(cc, newSlots(), "")
+					res[i] = obs
+				}(i)
+			}
+			wg.Wait()
+		}
+		for i := range segs {
+			fmt.Fprintf(out, "build %s %s\n", segs[i], bs[i])
+			fmt.Fprintln(out, "r "+res[i])
+		}
+	}
+}
+
+func sortedInts(m map[int]bool) []int {
+	out := make([]int, 0, len(m))
+	for k := range m {
+		out = append(out, k)
+	}
+	sort.Ints(out)
+	return out
+}
